@@ -121,6 +121,19 @@ theorem routing_absent (ts : List (QName × Queue.Id)) : ∀ (s : State) (q : QN
       · rename_i hq; subst hq; rw [h] at hq0; simp at hq0
       · exact h
 
+/-- **C03.2/3, execution order.** What the worker does to the queue when a handler that adds no tasks
+returns: `Success` removes exactly the task that was handled — the head (`head_stays`) — so the next
+task taken is the one placed right after it; `Fail` and `Repeat` leave the queue as it is, so the same
+task is taken again. With `routing` (tasks are appended in receive order) the tasks of a queue are
+therefore executed in the order the events were received. -/
+theorem plain_result_on_head (l : List Queue.Id) (t : Queue.Id) :
+    Queue.applyResult ((t :: l).map some) t .success [] [] [] = l.map some ∧
+    Queue.applyResult ((t :: l).map some) t .fail [] [] [] = (t :: l).map some ∧
+    Queue.applyResult ((t :: l).map some) t .repeat [] [] [] = (t :: l).map some := by
+  refine ⟨?_, rfl, rfl⟩
+  rw [Queue.applyResult_map]
+  simp [Queue.Spec.applyResult]
+
 /-! ### queues do not block each other -/
 
 /-- the queue a label belongs to (`none` for the consumer and the global steps) -/
